@@ -255,6 +255,10 @@ func (f *Failover) Get(
 
 	// Disabling defer to unlock in background.
 	alreadyLocked = true
+
+	// Copying key, caller is free to reuse the original slice once Get returns.
+	key = append([]byte(nil), key...)
+
 	// Spawning cache update in background.
 	go func() {
 		defer func() {
